@@ -31,6 +31,22 @@
 #define HASSERT(cond, tag) do { if (!(cond)) { \
 	fprintf(stderr, "HARNESS_ASSERT %s line %d\n", tag, __LINE__); exit(3); } } while (0)
 
+/* one report per distinct key and process: repeated hits of the same key are
+ * only counted, so that a frequent finding cannot exhaust the 25-line budget
+ * of vf_viol and mask another one */
+static char *seen_keys[64];
+static int nseen;
+static int
+key_fresh(const char *k)
+{
+	int i;
+	for (i = 0; i < nseen; i ++) if (!strcmp(seen_keys[i], k)) return 0;
+	if (nseen < 64) seen_keys[nseen ++] = strdup(k);
+	return 1;
+}
+#define VIOL(key, ...) do { const char *k_ = (key); \
+	if (key_fresh(k_)) vf_viol(k_, __VA_ARGS__); else vf_stat("violations_repeated", 1); } while (0)
+
 /* ================================================================== */
 /* globals */
 
@@ -694,18 +710,18 @@ nist_consts(const impl_t *im, curve_t *c)
 	pt_encode(c, EC_GROUP_get0_generator(c->g), ref);
 	vf_stat("cmp_const", 3);
 	if (gl != c->ptlen || memcmp(g, ref, gl) != 0) {
-		vf_viol(mkkey("const-generator", im, c->name), "generator() differs from the curve generator",
+		VIOL(mkkey("const-generator", im, c->name), "generator() differs from the curve generator",
 			"got=%s", vf_hexs(g, gl < 140 ? gl : 140));
 	}
 	BN_bin2bn(o, (int)ol, t);
 	if (BN_cmp(t, c->n) != 0) {
-		vf_viol(mkkey("const-order", im, c->name), "order() differs from the subgroup order",
+		VIOL(mkkey("const-order", im, c->name), "order() differs from the subgroup order",
 			"got=%s", vf_hexs(o, ol < 80 ? ol : 80));
 	}
 	vf_distinct("order_len", "%s %zu", c->name, ol);
 	xo = im->impl->xoff(c->id, &xl);
 	if (xo != 1 || xl != c->plen) {
-		vf_viol(mkkey("const-xoff", im, c->name), "xoff() is not (1, field length)", "xoff=%zu xlen=%zu", xo, xl);
+		VIOL(mkkey("const-xoff", im, c->name), "xoff() is not (1, field length)", "xoff=%zu xlen=%zu", xo, xl);
 	}
 	BN_free(t);
 }
@@ -727,7 +743,7 @@ nist_mul_case(const impl_t *im, curve_t *c, const unsigned char *pbuf, const EC_
 		vf_stat("cmp_mulgen", 1);
 		vf_distinct("arith_cfg", "%s %s mulgen %s kind%d", im->name, c->name, cls, kind);
 		if (rl != c->ptlen || memcmp(got, ref, c->ptlen) != 0) {
-			vf_viol(mkkey("mulgen-result", im, c->name), "mulgen(k) differs from EC_POINT_mul",
+			VIOL(mkkey("mulgen-result", im, c->name), "mulgen(k) differs from EC_POINT_mul",
 				"seed=%lld i=%lld cls=%s k=%s ret=%zu got=%s want=%s", g_seed, idx, cls,
 				vf_hexs(kb, kl), rl, vf_hexs(got, c->ptlen), vf_hexs(ref, c->ptlen));
 		}
@@ -748,10 +764,10 @@ nist_mul_case(const impl_t *im, curve_t *c, const unsigned char *pbuf, const EC_
 		}
 		vf_stat("cmp_mul", 1);
 		if (r != 1) {
-			vf_viol(mkkey("mul-valid-rejected", im, c->name), "mul() on a valid point and in-range scalar did not return 1",
+			VIOL(mkkey("mul-valid-rejected", im, c->name), "mul() on a valid point and in-range scalar did not return 1",
 				"seed=%lld i=%lld cls=%s ret=%u P=%s k=%s", g_seed, idx, cls, r, vf_hexs(pbuf, c->ptlen), vf_hexs(kb, kl));
 		} else if (memcmp(got, ref, c->ptlen) != 0) {
-			vf_viol(mkkey("mul-result", im, c->name), "mul(P,k) differs from EC_POINT_mul",
+			VIOL(mkkey("mul-result", im, c->name), "mul(P,k) differs from EC_POINT_mul",
 				"seed=%lld i=%lld cls=%s P=%s k=%s got=%s want=%s", g_seed, idx, cls,
 				vf_hexs(pbuf, c->ptlen), vf_hexs(kb, kl), vf_hexs(got, c->ptlen), vf_hexs(ref, c->ptlen));
 		}
@@ -794,7 +810,7 @@ nist_muladd_case(const impl_t *im, curve_t *c, const unsigned char *abuf, const 
 			vf_stat("obs_muladd_zero_multiplier_ret1_correct", 1);
 		} else {
 			vf_stat("obs_muladd_zero_multiplier_ret1_wrong", 1);
-			vf_viol(mkkey("muladd-zero-multiplier-wrong-result", im, c->name),
+			VIOL(mkkey("muladd-zero-multiplier-wrong-result", im, c->name),
 				"muladd() with a zero multiplier returned success (documented: error) and a point that is not x*A+y*B",
 				"seed=%lld i=%lld cls=%s ret=%u A=%s B=%s x=%s y=%s got=%s", g_seed, idx, cls, r,
 				vf_hexs(abuf, c->ptlen), bbuf ? vf_hexs(bbuf, c->ptlen) : "G", vf_hexs(xb, xl), vf_hexs(yb, yl), vf_hexs(got, c->ptlen));
@@ -814,7 +830,7 @@ nist_muladd_case(const impl_t *im, curve_t *c, const unsigned char *abuf, const 
 	if (!rok) {
 		vf_stat("cmp_muladd_must_fail", 1);
 		if (r != 0) {
-			vf_viol(mkkey("muladd-infinity-accepted", im, c->name),
+			VIOL(mkkey("muladd-infinity-accepted", im, c->name),
 				"muladd() returned success although the result is the point at infinity",
 				"seed=%lld i=%lld cls=%s ret=%u A=%s B=%s x=%s y=%s", g_seed, idx, cls, r,
 				vf_hexs(abuf, c->ptlen), bbuf ? vf_hexs(bbuf, c->ptlen) : "G", vf_hexs(xb, xl), vf_hexs(yb, yl));
@@ -822,11 +838,11 @@ nist_muladd_case(const impl_t *im, curve_t *c, const unsigned char *abuf, const 
 		return;
 	}
 	if (r != 1) {
-		vf_viol(mkkey("muladd-valid-rejected", im, c->name), "muladd() on valid operands did not return 1",
+		VIOL(mkkey("muladd-valid-rejected", im, c->name), "muladd() on valid operands did not return 1",
 			"seed=%lld i=%lld cls=%s ret=%u A=%s B=%s x=%s y=%s", g_seed, idx, cls, r,
 			vf_hexs(abuf, c->ptlen), bbuf ? vf_hexs(bbuf, c->ptlen) : "G", vf_hexs(xb, xl), vf_hexs(yb, yl));
 	} else if (memcmp(got, ref, c->ptlen) != 0) {
-		vf_viol(mkkey("muladd-result", im, c->name), "muladd() differs from x*A+y*B computed with EC_POINT_add",
+		VIOL(mkkey("muladd-result", im, c->name), "muladd() differs from x*A+y*B computed with EC_POINT_add",
 			"seed=%lld i=%lld cls=%s A=%s B=%s x=%s y=%s got=%s want=%s", g_seed, idx, cls,
 			vf_hexs(abuf, c->ptlen), bbuf ? vf_hexs(bbuf, c->ptlen) : "G", vf_hexs(xb, xl), vf_hexs(yb, yl),
 			vf_hexs(got, c->ptlen), vf_hexs(ref, c->ptlen));
@@ -945,7 +961,7 @@ nist_invalid_case(const impl_t *im, curve_t *c, long long idx)
 	if (where == 0) {
 		r = call_mul(im->impl, NULL, bad, l, kb, kl, c->id);
 		if (r != 0) {
-			vf_viol(mkkeyc("mul-invalid-accepted", im, c->name, cn), "mul() accepted an encoding that is not a valid uncompressed point",
+			VIOL(mkkeyc("mul-invalid-accepted", im, c->name, cn), "mul() accepted an encoding that is not a valid uncompressed point",
 				"seed=%lld i=%lld cls=%s ret=%u G=%s k=%s", g_seed, idx, cn, r, vf_hexs(bad, l), vf_hexs(kb, kl));
 		}
 	} else if (where == 1) {
@@ -954,7 +970,7 @@ nist_invalid_case(const impl_t *im, curve_t *c, long long idx)
 		if (l != c->ptlen) useg = 1;   /* B must have the common length */
 		r = call_muladd(im->impl, NULL, bad, useg ? NULL : wb, l, kb, kl, yb, yl, c->id);
 		if (r != 0) {
-			vf_viol(mkkeyc("muladd-invalid-accepted", im, c->name, cn), "muladd() accepted an invalid point A",
+			VIOL(mkkeyc("muladd-invalid-accepted", im, c->name, cn), "muladd() accepted an invalid point A",
 				"seed=%lld i=%lld cls=%s ret=%u A=%s x=%s y=%s", g_seed, idx, cn, r, vf_hexs(bad, l), vf_hexs(kb, kl), vf_hexs(yb, yl));
 		}
 	} else {
@@ -970,7 +986,7 @@ nist_invalid_case(const impl_t *im, curve_t *c, long long idx)
 			r = call_muladd(im->impl, NULL, wb, bad, l, kb, kl, yb, yl, c->id);
 		}
 		if (r != 0) {
-			vf_viol(mkkeyc("muladd-invalid-accepted", im, c->name, cn), "muladd() accepted an invalid point B",
+			VIOL(mkkeyc("muladd-invalid-accepted", im, c->name, cn), "muladd() accepted an invalid point B",
 				"seed=%lld i=%lld cls=%s ret=%u B=%s x=%s y=%s", g_seed, idx, cn, r, vf_hexs(bad, l), vf_hexs(kb, kl), vf_hexs(yb, yl));
 		}
 	}
@@ -1194,15 +1210,15 @@ c25519_consts(const impl_t *im)
 	memset(ord, 0xFF, 32); ord[0] = 0x7F;
 	vf_stat("cmp_const", 3);
 	if (gl != 32 || memcmp(g, nine, 32) != 0) {
-		vf_viol(mkkey("const-generator", im, "C25519"), "generator() is not u=9", "got=%s", vf_hexs(g, gl < 64 ? gl : 64));
+		VIOL(mkkey("const-generator", im, "C25519"), "generator() is not u=9", "got=%s", vf_hexs(g, gl < 64 ? gl : 64));
 	}
 	/* documented: order() returns 2^255-1 */
 	if (ol != 32 || memcmp(o, ord, 32) != 0) {
-		vf_viol(mkkey("const-order", im, "C25519"), "order() is not the documented 2^255-1", "got=%s", vf_hexs(o, ol < 64 ? ol : 64));
+		VIOL(mkkey("const-order", im, "C25519"), "order() is not the documented 2^255-1", "got=%s", vf_hexs(o, ol < 64 ? ol : 64));
 	}
 	xo = im->impl->xoff(BR_EC_curve25519, &xl);
 	if (xo != 0 || xl != 32) {
-		vf_viol(mkkey("const-xoff", im, "C25519"), "xoff() is not (0, 32)", "xoff=%zu xlen=%zu", xo, xl);
+		VIOL(mkkey("const-xoff", im, "C25519"), "xoff() is not (0, 32)", "xoff=%zu xlen=%zu", xo, xl);
 	}
 }
 
@@ -1225,13 +1241,13 @@ c25519_mul_case(const impl_t *im, const unsigned char *u, const unsigned char *k
 	low = is_zero32(ref);
 	on = c25519_on_curve(u);
 	if (r != 0 && r != 1) {
-		vf_viol(mkkey("mul-retval", im, "C25519"), "mul() returned neither 0 nor 1", "ret=%u", r);
+		VIOL(mkkey("mul-retval", im, "C25519"), "mul() returned neither 0 nor 1", "ret=%u", r);
 		return;
 	}
 	if (r == 0) {
 		if (on && !low) {
 			vf_stat("cmp_mul", 1);
-			vf_viol(mkkey("mul-valid-rejected", im, "C25519"), "mul() rejected a point of the curve",
+			VIOL(mkkey("mul-valid-rejected", im, "C25519"), "mul() rejected a point of the curve",
 				"seed=%lld i=%lld cls=%s u=%s k=%s", g_seed, idx, cls, vf_hexs(u, 32), vf_hexs(k_be, kl));
 		} else {
 			vf_stat("unjudged_c25519_rejected_loworder_or_twist", 1);
@@ -1242,7 +1258,7 @@ c25519_mul_case(const impl_t *im, const unsigned char *u, const unsigned char *k
 	if (low) vf_stat("c25519_low_order_inputs", 1);
 	if (!on) vf_stat("c25519_twist_inputs", 1);
 	if (memcmp(got, ref, 32) != 0) {
-		vf_viol(mkkey("mul-result", im, "C25519"), "mul() differs from the RFC 7748 X25519 function",
+		VIOL(mkkey("mul-result", im, "C25519"), "mul() differs from the RFC 7748 X25519 function",
 			"seed=%lld i=%lld cls=%s u=%s k_be=%s got=%s want=%s", g_seed, idx, cls,
 			vf_hexs(u, 32), vf_hexs(k_be, kl), vf_hexs(got, 32), vf_hexs(ref, 32));
 	}
@@ -1259,7 +1275,7 @@ c25519_mulgen_case(const impl_t *im, const unsigned char *k_be, size_t kl, const
 	ref_c25519(ref, k_be, kl, nine);
 	vf_stat("cmp_mulgen", 1);
 	if (rl != 32 || memcmp(got, ref, 32) != 0) {
-		vf_viol(mkkey("mulgen-result", im, "C25519"), "mulgen() differs from X25519(k, 9)",
+		VIOL(mkkey("mulgen-result", im, "C25519"), "mulgen() differs from X25519(k, 9)",
 			"seed=%lld i=%lld cls=%s k_be=%s ret=%zu got=%s want=%s", g_seed, idx, cls,
 			vf_hexs(k_be, kl), rl, vf_hexs(got, 32), vf_hexs(ref, 32));
 	}
@@ -1294,7 +1310,7 @@ c25519_kat(const impl_t *im)
 		rev32(kbe, k, 32);
 		vf_stat("cmp_kat", 1);
 		if (call_mul(im->impl, got, u, 32, kbe, 32, BR_EC_curve25519) != 1 || memcmp(got, want, 32) != 0) {
-			vf_viol(mkkey("kat-rfc7748", im, "C25519"), "RFC 7748 5.2 test vector not reproduced", "vector=%d got=%s", v, vf_hexs(got, 32));
+			VIOL(mkkey("kat-rfc7748", im, "C25519"), "RFC 7748 5.2 test vector not reproduced", "vector=%d got=%s", v, vf_hexs(got, 32));
 		}
 	}
 	/* iterated vector: k = u = 9; k, u <- X25519(k, u), k */
@@ -1309,7 +1325,7 @@ c25519_kat(const impl_t *im)
 			vf_unhex(want, 32, i == 1 ? rfc7748_iter1 : rfc7748_iter1000);
 			vf_stat("cmp_kat", 1);
 			if (memcmp(got, want, 32) != 0) {
-				vf_viol(mkkey("kat-rfc7748-iter", im, "C25519"), "RFC 7748 iterated vector not reproduced", "iterations=%d got=%s", i, vf_hexs(got, 32));
+				VIOL(mkkey("kat-rfc7748-iter", im, "C25519"), "RFC 7748 iterated vector not reproduced", "iterations=%d got=%s", i, vf_hexs(got, 32));
 			}
 		}
 	}
@@ -1402,7 +1418,7 @@ arith_c25519(const impl_t *im, long long cases)
 			vf_stat("cmp_invalid_point", 1);
 			vf_distinct("arith_cfg", "%s C25519 invalid len%zu", im->name, l);
 			if (r != 0) {
-				vf_viol(mkkeyc("mul-invalid-accepted", im, "C25519", "wrong-length"), "mul() accepted a point of the wrong length", "Glen=%zu ret=%u", l, r);
+				VIOL(mkkeyc("mul-invalid-accepted", im, "C25519", "wrong-length"), "mul() accepted a point of the wrong length", "Glen=%zu ret=%u", l, r);
 			}
 		} else if (op < 97) {
 			/* over-long scalar: executed, not judged */
@@ -1421,7 +1437,7 @@ arith_c25519(const impl_t *im, long long cases)
 			vf_stat("cmp_muladd_must_fail", 1);
 			vf_distinct("arith_cfg", "%s C25519 muladd", im->name);
 			if (r != 0) {
-				vf_viol(mkkey("muladd-c25519-nonzero", im, "C25519"), "muladd() on Curve25519 did not return 0", "ret=%u", r);
+				VIOL(mkkey("muladd-c25519-nonzero", im, "C25519"), "muladd() on Curve25519 did not return 0", "ret=%u", r);
 			}
 		}
 	}
@@ -1531,6 +1547,7 @@ judge_values(ecdsa_env *E, const impl_t *im, const ecdsa_t *ev, const unsigned c
 	unsigned char sig[400];
 	size_t sl, L;
 	uint32_t got;
+	int ez;
 
 	if (ev->asn1) {
 		sl = ref_der(sig, sizeof sig, r, s);
@@ -1549,20 +1566,31 @@ judge_values(ecdsa_env *E, const impl_t *im, const ecdsa_t *ev, const unsigned c
 	vf_distinct("ecdsa_cfg", "vrfy %s %s %s %s shape%d want%d", ev->name, im->name, c->name, cls, ev->asn1 ? 0 : shape, want);
 	vf_distinct("vrfy_hashlen", "%s %zu", c->name, hl);
 	if (want) vf_stat("cmp_vrfy_accept", 1); else vf_stat("cmp_vrfy_reject", 1);
-	if ((got == 1) != (want == 1) || got > 1) {
+	{
 		BIGNUM *e = BN_new();
-		int ez;
 		ref_bits2int(e, hv, hl, c->nbits);
 		BN_mod(e, e, c->n, bctx);
 		ez = BN_is_zero(e);
 		BN_free(e);
-		snprintf(keybuf2, sizeof keybuf2, "C11:%s:%s.%s.%s:%s", want ? "vrfy-valid-rejected" : "vrfy-invalid-accepted",
-			ev->name, im->name, c->name, ez ? "e-zero" : "general");
-		vf_viol(keybuf2,
+		if (ez) vf_stat("vrfy_cases_with_e_zero", 1);
+	}
+	if ((got == 1) != (want == 1) || got > 1) {
+		if (ez) snprintf(keybuf2, sizeof keybuf2, "C11:%s:e-zero:%s.%s", want ? "vrfy-valid-rejected" : "vrfy-invalid-accepted", im->name, c->name);
+		else snprintf(keybuf2, sizeof keybuf2, "C11:%s:%s.%s.%s", want ? "vrfy-valid-rejected" : "vrfy-invalid-accepted", ev->name, im->name, c->name);
+		VIOL(keybuf2,
 			want ? "verifier rejected a signature that OpenSSL accepts" : "verifier accepted a signature that OpenSSL rejects",
 			"seed=%lld i=%lld cls=%s ret=%u Q=%s hash=%s sig=%s", g_seed, idx, cls, got,
 			vf_hexs(q, ql), vf_hexs(hv, hl), vf_hexs(sig, sl));
 	}
+}
+
+static int
+pt_is_invalid(const curve_t *c, const unsigned char *q, size_t ql)
+{
+	EC_POINT *P = pt_decode(c, q, ql);
+	if (P == NULL) return 1;
+	EC_POINT_free(P);
+	return 0;
 }
 
 /* a raw byte string that must be rejected whatever it contains */
@@ -1574,8 +1602,11 @@ judge_must_reject(ecdsa_env *E, const impl_t *im, const ecdsa_t *ev, const unsig
 	vf_stat("cmp_vrfy_must_reject", 1);
 	vf_distinct("ecdsa_cfg", "vrfy %s %s %s %s must-reject", ev->name, im->name, E->c->name, cls);
 	if (got != 0) {
-		snprintf(keybuf2, sizeof keybuf2, "C11:vrfy-malformed-accepted:%s.%s.%s:%s", ev->name, im->name, E->c->name, cls);
-		vf_viol(keybuf2,
+		if (ql != E->c->ptlen || pt_is_invalid(E->c, q, ql))
+			snprintf(keybuf2, sizeof keybuf2, "C11:vrfy-invalid-pubkey-accepted:%s.%s:%s", im->name, E->c->name, cls);
+		else
+			snprintf(keybuf2, sizeof keybuf2, "C11:vrfy-malformed-sig-accepted:%s.%s:%s", ev->name, E->c->name, cls);
+		VIOL(keybuf2,
 			"verifier accepted a malformed signature or public key",
 			"seed=%lld i=%lld cls=%s ret=%u Q=%s hash=%s sig=%s", g_seed, idx, cls, got,
 			vf_hexs(q, ql), vf_hexs(hv, hl), vf_hexs(sig, sl));
@@ -1635,6 +1666,33 @@ der_break(int cls, const unsigned char *der, size_t dl, unsigned char *out, int 
 		*name = "r-len-0x80"; out[hdr + 1] = 0x80; break;
 	}
 	return l;
+}
+
+/* (hash, r, s) that verifies under an arbitrary public point W without its
+ * private key: R = u1*G + u2*W, r = x(R) mod n, s = r/u2, e = u1*s; the hash is
+ * e written so that bits2int gives e back (length nlen) */
+static int
+forge_for_point(curve_t *c, const EC_POINT *W, BIGNUM *r, BIGNUM *s, unsigned char *hv, size_t *hl)
+{
+	BIGNUM *u1 = BN_new(), *u2 = BN_new(), *x = BN_new(), *e = BN_new(), *t = BN_new();
+	EC_POINT *R = EC_POINT_new(c->g);
+	int ok = 0;
+	rand_scalar(u1, c); rand_scalar(u2, c);
+	HASSERT(EC_POINT_mul(c->g, R, u1, W, u2, bctx) == 1, "forge-mul");
+	if (EC_POINT_is_at_infinity(c->g, R)) goto done;
+	HASSERT(EC_POINT_get_affine_coordinates(c->g, R, x, NULL, bctx) == 1, "forge-affine");
+	BN_nnmod(r, x, c->n, bctx);
+	if (BN_is_zero(r)) goto done;
+	HASSERT(BN_mod_inverse(t, u2, c->n, bctx) != NULL, "forge-inv");
+	BN_mod_mul(s, r, t, c->n, bctx);
+	BN_mod_mul(e, u1, s, c->n, bctx);
+	*hl = c->nlen;
+	BN_lshift(t, e, (int)(8 * c->nlen) - c->nbits);
+	BN_bn2binpad(t, hv, (int)c->nlen);
+	ok = 1;
+done:
+	BN_free(u1); BN_free(u2); BN_free(x); BN_free(e); BN_free(t); EC_POINT_free(R);
+	return ok;
 }
 
 /* value-level mutations of a valid (r, s, hash, Q).  Fills r2, s2, hv2/hl2, q2;
@@ -1713,7 +1771,7 @@ ecdsa_kat(ecdsa_env *E)
 		size_t sl = call_sign(E->sup[i], &ecdsas[e], 2, hv, BR_EC_secp256r1, x, 32, sig, 64);
 		vf_stat("cmp_kat", 1);
 		if (sl != 64 || memcmp(sig, want, 64) != 0) {
-			vf_viol(mkkey2("kat-rfc6979", E->sup[i], &ecdsas[e], "P256"), "RFC 6979 A.2.5 vector not reproduced", "got=%s", vf_hexs(sig, 64));
+			VIOL(mkkey2("kat-rfc6979", E->sup[i], &ecdsas[e], "P256"), "RFC 6979 A.2.5 vector not reproduced", "got=%s", vf_hexs(sig, 64));
 		}
 	}
 }
@@ -1748,7 +1806,7 @@ ecdsa_case(ecdsa_env *E, long long idx, int nverify, int nmut)
 	h = (int)vf_below(&rng, NHASH);
 	hl = hlen_of[h];
 	vf_bytes(&rng, hv, hl);
-	v = vf_below(&rng, 24);
+	v = vf_below(&rng, 60);
 	if (v == 0) { memset(hv, 0, hl); hcls = "zero"; }
 	else if (v == 1) { memset(hv, 0xFF, hl); hcls = "ones"; }
 	else if (v == 2 && 8 * hl >= (size_t)c->nbits) {
@@ -1769,7 +1827,7 @@ ecdsa_case(ecdsa_env *E, long long idx, int nverify, int nmut)
 	vf_stat("cmp_sign", 1);
 	vf_distinct("ecdsa_cfg", "sign %s %s %s %s hash-%s", sev->name, sim->name, c->name, hname[h], hcls);
 	if (sl != wl || memcmp(sig, want, wl) != 0) {
-		vf_viol(mkkey2("sign-rfc6979", sim, sev, c->name), "signature differs from the RFC 6979 deterministic value",
+		VIOL(mkkey2("sign-rfc6979", sim, sev, c->name), "signature differs from the RFC 6979 deterministic value",
 			"seed=%lld i=%lld hash=%s x=%s hv=%s len=%zu got=%s want=%s", g_seed, idx, hname[h],
 			vf_hexs(xb, xl), vf_hexs(hv, hl), sl, vf_hexs(sig, sl < 160 ? sl : 160), vf_hexs(want, wl));
 	}
@@ -1845,7 +1903,7 @@ ecdsa_case(ecdsa_env *E, long long idx, int nverify, int nmut)
 				if (!want) {
 					vf_stat("cmp_vrfy_reject", 1);
 					if (got != 0) {
-						vf_viol(mkkey2("vrfy-invalid-accepted", im, ev, c->name), "verifier accepted a signature that OpenSSL rejects (lenient DER form)",
+						VIOL(mkkey2("vrfy-invalid-accepted", im, ev, c->name), "verifier accepted a signature that OpenSSL rejects (lenient DER form)",
 							"seed=%lld i=%lld cls=%s Q=%s hash=%s sig=%s", g_seed, idx, name, vf_hexs(qb, c->ptlen), vf_hexs(hv, hl), vf_hexs(bad, bl));
 					}
 				} else {
@@ -1856,12 +1914,28 @@ ecdsa_case(ecdsa_env *E, long long idx, int nverify, int nmut)
 			/* invalid public key with a valid signature */
 			unsigned char bad[300], sg[200];
 			const char *name = "?";
-			size_t bl = make_invalid(c, (int)vf_below(&rng, N_INVALID), qb, bad, &name), sgl;
+			int icls = (int)vf_below(&rng, N_INVALID);
+			size_t bl = make_invalid(c, icls, qb, bad, &name), sgl;
 			if (bl == (size_t)-1) continue;
 			next_verifier(E, &im, &ev, -1);
-			sgl = ev->asn1 ? ref_der(sg, sizeof sg, r, s) : enc_raw(sg, r, s, c->nlen);
+			BN_copy(r2, r); BN_copy(s2, s); memcpy(hv2, hv, hl); hl2 = hl;
+			if (icls == 19) {
+				/* x = p: an implementation that reduces coordinates sees the point
+				 * (0, sqrt(b)); give it a signature that verifies under that point */
+				unsigned char wb[140];
+				EC_POINT *W;
+				memcpy(wb, bad, c->ptlen);
+				memset(wb + 1, 0, c->plen);
+				W = pt_decode(c, wb, c->ptlen);
+				HASSERT(W != NULL, "x0-point");
+				if (forge_for_point(c, W, r2, s2, hv2, &hl2)) {
+					HASSERT(ref_verify(c, W, hv2, hl2, r2, s2), "forged-does-not-verify");
+				}
+				EC_POINT_free(W);
+			}
+			sgl = ev->asn1 ? ref_der(sg, sizeof sg, r2, s2) : enc_raw(sg, r2, s2, c->nlen);
 			vf_stat("cmp_invalid_point", 1);
-			judge_must_reject(E, im, ev, bad, bl, hv, hl, sg, sgl, name, idx);
+			judge_must_reject(E, im, ev, bad, bl, hv2, hl2, sg, sgl, name, idx);
 		} else {
 			/* implementation that does not support the curve: documented to return 0 */
 			unsigned char sg[200];
@@ -1873,9 +1947,9 @@ ecdsa_case(ecdsa_env *E, long long idx, int nverify, int nmut)
 			sgl = ev->asn1 ? ref_der(sg, sizeof sg, r, s) : enc_raw(sg, r, s, c->nlen);
 			got = call_vrfy(im, ev, hv, hl, c->id, qb, c->ptlen, sg, sgl);
 			vf_stat("cmp_unsupported_curve", 2);
-			if (got != 0) vf_viol(mkkey2("vrfy-unsupported-curve", im, ev, c->name), "verifier did not return 0 for an unsupported curve", "ret=%u", got);
+			if (got != 0) VIOL(mkkey2("vrfy-unsupported-curve", im, ev, c->name), "verifier did not return 0 for an unsupported curve", "ret=%u", got);
 			sgl = call_sign(im, ev, h, hv, c->id, xb, xl, sg, ev->asn1 ? c->max_asn1 : c->max_raw);
-			if (sgl != 0) vf_viol(mkkey2("sign-unsupported-curve", im, ev, c->name), "signer did not return 0 for an unsupported curve", "ret=%zu", sgl);
+			if (sgl != 0) VIOL(mkkey2("sign-unsupported-curve", im, ev, c->name), "signer did not return 0 for an unsupported curve", "ret=%zu", sgl);
 		}
 	}
 
@@ -1988,11 +2062,11 @@ run_conv(long long cases)
 		vf_stat("cmp_conv_r2a", 1);
 		vf_distinct("conv_cfg", "r2a L%zu", L);
 		if (gl != dl || memcmp(got, der, dl) != 0) {
-			vf_viol("C11:conv:raw_to_asn1-not-der", "br_ecdsa_raw_to_asn1 output differs from i2d_ECDSA_SIG",
+			VIOL("C11:conv:raw_to_asn1-not-der", "br_ecdsa_raw_to_asn1 output differs from i2d_ECDSA_SIG",
 				"seed=%lld i=%lld raw=%s ret=%zu want=%s", g_seed, i, vf_hexs(raw, 2 * L), gl, vf_hexs(der, dl));
 			continue;
 		}
-		if (gl > 2 * L + 9) vf_viol("C11:conv:raw_to_asn1-growth", "enlarged by more than 9 bytes", "L=%zu out=%zu", L, gl);
+		if (gl > 2 * L + 9) VIOL("C11:conv:raw_to_asn1-growth", "enlarged by more than 9 bytes", "L=%zu out=%zu", L, gl);
 		/* asn1 -> raw: minimal common length, values preserved */
 		bl = call_a2r(back, der, dl);
 		if (z == 0) {
@@ -2003,16 +2077,16 @@ run_conv(long long cases)
 			enc_raw(exp, r, s, z);
 			vf_stat("cmp_conv_a2r", 1);
 			if (bl != 2 * z || memcmp(back, exp, 2 * z) != 0) {
-				vf_viol("C11:conv:asn1_to_raw-values", "br_ecdsa_asn1_to_raw lost or altered the integers",
+				VIOL("C11:conv:asn1_to_raw-values", "br_ecdsa_asn1_to_raw lost or altered the integers",
 					"seed=%lld i=%lld der=%s ret=%zu want=%s", g_seed, i, vf_hexs(der, dl), bl, vf_hexs(exp, 2 * z));
 				continue;
 			}
-			if (bl >= 2 * dl) vf_viol("C11:conv:asn1_to_raw-growth", "raw length not below twice the asn1 length", "dl=%zu out=%zu", dl, bl);
+			if (bl >= 2 * dl) VIOL("C11:conv:asn1_to_raw-growth", "raw length not below twice the asn1 length", "dl=%zu out=%zu", dl, bl);
 			/* and back again: lossless */
 			gl = call_r2a(got, back, bl);
 			vf_stat("cmp_conv_roundtrip", 1);
 			if (gl != dl || memcmp(got, der, dl) != 0) {
-				vf_viol("C11:conv:roundtrip", "raw_to_asn1(asn1_to_raw(der)) != der", "seed=%lld i=%lld der=%s", g_seed, i, vf_hexs(der, dl));
+				VIOL("C11:conv:roundtrip", "raw_to_asn1(asn1_to_raw(der)) != der", "seed=%lld i=%lld der=%s", g_seed, i, vf_hexs(der, dl));
 			}
 		}
 		/* odd raw length: documented error */
@@ -2021,7 +2095,7 @@ run_conv(long long cases)
 			raw[2 * L] = 0;
 			gl = call_r2a(got, raw, ol);
 			vf_stat("cmp_conv_must_fail", 1);
-			if (gl != 0) vf_viol("C11:conv:raw_to_asn1-odd-accepted", "odd raw length not reported as an error", "len=%zu ret=%zu", ol, gl);
+			if (gl != 0) VIOL("C11:conv:raw_to_asn1-odd-accepted", "odd raw length not reported as an error", "len=%zu ret=%zu", ol, gl);
 		}
 		/* structurally invalid DER: documented error */
 		if (dl >= 8 && dl <= 250) {
@@ -2033,7 +2107,7 @@ run_conv(long long cases)
 				gl = call_a2r(got, bad, l);
 				vf_stat("cmp_conv_must_fail", 1);
 				vf_distinct("conv_cfg", "a2r %s", name);
-				if (gl != 0) vf_viol("C11:conv:asn1_to_raw-malformed-accepted", "invalid ASN.1 structure not reported as an error",
+				if (gl != 0) VIOL("C11:conv:asn1_to_raw-malformed-accepted", "invalid ASN.1 structure not reported as an error",
 					"seed=%lld i=%lld cls=%s der=%s ret=%zu", g_seed, i, name, vf_hexs(bad, l), gl);
 			} else if (kind == 1) {
 				gl = call_a2r(got, bad, l);
@@ -2044,7 +2118,7 @@ run_conv(long long cases)
 					enc_raw(exp, r, s, z);
 					vf_stat("cmp_conv_a2r", 1);
 					if (gl != 2 * z || memcmp(got, exp, gl) != 0) {
-						vf_viol("C11:conv:asn1_to_raw-values", "lenient form decoded to different integers",
+						VIOL("C11:conv:asn1_to_raw-values", "lenient form decoded to different integers",
 							"seed=%lld i=%lld cls=%s der=%s", g_seed, i, name, vf_hexs(bad, l));
 					}
 				}
@@ -2058,7 +2132,7 @@ run_conv(long long cases)
 			if (jl > 4 && (vf_u32(&rng) & 1)) { junk[0] = 0x30; junk[1] = (unsigned char)(jl - 2); junk[2] = 2; }
 			gl = call_a2r(got, junk, jl);
 			vf_stat("conv_junk", 1);
-			if (gl > (jl ? 2 * jl : 1)) vf_viol("C11:conv:asn1_to_raw-growth", "raw length above twice the asn1 length", "in=%zu out=%zu", jl, gl);
+			if (gl > (jl ? 2 * jl : 1)) VIOL("C11:conv:asn1_to_raw-growth", "raw length above twice the asn1 length", "in=%zu out=%zu", jl, gl);
 		}
 	}
 	BN_free(r); BN_free(s);
@@ -2093,10 +2167,10 @@ run_keygen(long long cases)
 				br_hmac_drbg_init(&drbg, &br_sha256_vtable, seedb, sizeof seedb);
 				vf_stat("cmp_unsupported_curve", 2);
 				if (br_ec_keygen(&drbg.vtable, im->impl, &sk0, kb0, cid) != 0)
-					vf_viol(mkkey("keygen-unsupported-curve", im, cname), "br_ec_keygen did not return 0 for an unsupported curve", "-");
+					VIOL(mkkey("keygen-unsupported-curve", im, cname), "br_ec_keygen did not return 0 for an unsupported curve", "-");
 				sk0.curve = cid; sk0.x = one; sk0.xlen = 1;
 				if (br_ec_compute_pub(im->impl, NULL, NULL, &sk0) != 0)
-					vf_viol(mkkey("pubkey-unsupported-curve", im, cname), "br_ec_compute_pub did not return 0 for an unsupported curve", "-");
+					VIOL(mkkey("pubkey-unsupported-curve", im, cname), "br_ec_compute_pub did not return 0 for an unsupported curve", "-");
 				continue;
 			}
 			/* P-521 on the i15 code is slow: fewer keys */
@@ -2115,7 +2189,7 @@ run_keygen(long long cases)
 				br_hmac_drbg_init(&drbg, (i & 1) ? &br_sha256_vtable : &br_sha1_vtable, seedb, sizeof seedb);
 				need = br_ec_keygen(&drbg.vtable, im->impl, NULL, NULL, cid);
 				if (need == 0 || need > BR_EC_KBUF_PRIV_MAX_SIZE) {
-					vf_viol(mkkey("keygen-length", im, cname), "br_ec_keygen(kbuf=NULL) length out of the documented range", "len=%zu", need);
+					VIOL(mkkey("keygen-length", im, cname), "br_ec_keygen(kbuf=NULL) length out of the documented range", "len=%zu", need);
 					BN_free(x); BN_free(o);
 					break;
 				}
@@ -2129,18 +2203,18 @@ run_keygen(long long cases)
 				vf_stat("cmp_keygen_range", 1);
 				vf_distinct("keygen_cfg", "%s %s", im->name, cname);
 				if (kl != need || sk.curve != cid || sk.x != kbuf || sk.xlen != kl) {
-					vf_viol(mkkey("keygen-fields", im, cname), "br_ec_keygen length / key structure fields inconsistent",
+					VIOL(mkkey("keygen-fields", im, cname), "br_ec_keygen length / key structure fields inconsistent",
 						"ret=%zu need=%zu curve=%d xlen=%zu", kl, need, sk.curve, sk.xlen);
 				} else {
 					BN_bin2bn(kbuf, (int)kl, x);
 					if (BN_is_zero(x) || BN_cmp(x, o) >= 0) {
-						vf_viol(mkkey("keygen-range", im, cname), "generated private key not in [1, order-1]",
+						VIOL(mkkey("keygen-range", im, cname), "generated private key not in [1, order-1]",
 							"seed=%lld i=%lld x=%s", g_seed, i, vf_hexs(kbuf, kl));
 					}
 					/* public key */
 					publen = br_ec_compute_pub(im->impl, NULL, NULL, &sk);
 					if (publen == 0 || publen > BR_EC_KBUF_PUB_MAX_SIZE) {
-						vf_viol(mkkey("pubkey-length", im, cname), "br_ec_compute_pub(kbuf=NULL) length out of range", "len=%zu", publen);
+						VIOL(mkkey("pubkey-length", im, cname), "br_ec_compute_pub(kbuf=NULL) length out of range", "len=%zu", publen);
 					} else {
 						pbuf = malloc(publen);
 						memset(&pk, 0, sizeof pk);
@@ -2151,14 +2225,14 @@ run_keygen(long long cases)
 						if (ci < 3) {
 							int okr = ref_mul(&curves[ci], ref, EC_GROUP_get0_generator(curves[ci].g), x);
 							HASSERT(okr, "pub-ref");
-							if (publen != curves[ci].ptlen) vf_viol(mkkey("pubkey-length", im, cname), "public key length differs from the point length", "len=%zu", publen);
+							if (publen != curves[ci].ptlen) VIOL(mkkey("pubkey-length", im, cname), "public key length differs from the point length", "len=%zu", publen);
 						} else {
 							unsigned char nine[32];
 							memset(nine, 0, 32); nine[0] = 9;
 							ref_c25519(ref, kbuf, kl, nine);
 						}
 						if (pl != publen || pk.curve != cid || pk.q != pbuf || pk.qlen != pl || memcmp(pbuf, ref, pl) != 0) {
-							vf_viol(mkkey("pubkey-value", im, cname), "br_ec_compute_pub differs from x*G of the reference",
+							VIOL(mkkey("pubkey-value", im, cname), "br_ec_compute_pub differs from x*G of the reference",
 								"seed=%lld i=%lld x=%s got=%s want=%s", g_seed, i, vf_hexs(kbuf, kl), vf_hexs(pbuf, pl < 140 ? pl : 140), vf_hexs(ref, publen));
 						}
 						if (i == 0) vf_sample("{\"op\":\"keygen\",\"impl\":\"%s\",\"curve\":\"%s\",\"x\":\"%s\",\"pub\":\"%s\"}",
